@@ -28,7 +28,8 @@ from vsim import tlc
 # ------------------------------------------------------------------------------------------
 # pool symbols -> concrete request JSON
 ACCOUNT = "0123456789"
-NAME = {"n1": "alpha", "n2": "beta-2", "n_empty": "", "n_long": "x" * 81, "n_char": "al?pha"}
+# (n1 is a strict prefix of n2 on purpose: a keyed store must not confuse "alpha" with "alpha-2" -- prefix scans, startswith filters)
+NAME = {"n1": "alpha", "n2": "alpha-2", "n_empty": "", "n_long": "x" * 81, "n_char": "al?pha"}
 ROLE = {"r1": "arn:aws:iam::%s:role/r1" % ACCOUNT, "r2": "arn:aws:iam::%s:role/service-role/r2" % ACCOUNT,
         "r_bad": "arn:aws:iam:role"}
 
@@ -41,9 +42,9 @@ def exec_arn(sm_name, name):
     return "arn:aws:states:local:%s:execution:%s:%s" % (ACCOUNT, sm_name, name)
 
 
-MARN = {"a1": sm_arn("alpha"), "a2": sm_arn("beta-2"), "a_ghost": sm_arn("ghost"), "a_bad": "arn:aws:states:stateMachine"}
+MARN = {"a1": sm_arn("alpha"), "a2": sm_arn("alpha-2"), "a_ghost": sm_arn("ghost"), "a_bad": "arn:aws:states:stateMachine"}
 ENAME = {"e1": "exec-1", "e_bad": "bad name?"}
-XARN = {"x11": exec_arn("alpha", "exec-1"), "x21": exec_arn("beta-2", "exec-1"),
+XARN = {"x11": exec_arn("alpha", "exec-1"), "x21": exec_arn("alpha-2", "exec-1"),
         "x_ghost": exec_arn("alpha", "nobody"), "x_bad": "arn:aws:states:execution"}
 DEF_OBJ = {"d1": {"StartAt": "W", "States": {"W": {"Type": "Wait", "Seconds": 10, "End": True}}},
            "d2": {"Comment": "second version", "StartAt": "W", "States": {"W": {"Type": "Wait", "Seconds": 10, "End": True}}}}
@@ -61,7 +62,7 @@ RAW_BODY = {"b_text": "this is not json", "b_array": "[1, 2]"}
 
 ARN2SYM = {v: k for k, v in MARN.items()}
 ARN2SYM.update({v: k for k, v in XARN.items()})
-NAME2SYM = {"alpha": "n1", "beta-2": "n2", "exec-1": "e1"}
+NAME2SYM = {"alpha": "n1", "alpha-2": "n2", "exec-1": "e1"}
 ROLE2SYM = {ROLE["r1"]: "r1", ROLE["r2"]: "r2"}
 
 FIELDS = "anrmdtlbfexi"          # order of the fields of spec/Api.tla Call(...)
